@@ -110,6 +110,10 @@ type OpSpec struct {
 type Expect struct {
 	Markers map[string]int    `json:"markers,omitempty"` // marker -> expected occurrences in the output
 	Kinds   map[string]string `json:"kinds,omitempty"`   // marker -> placement kind (names the violation signature)
+	// OneLess: markers for which one occurrence less than Markers[m] is accepted too (an emission the statement
+	// leaves to the implementation); Same: groups of markers that must then occur equally often.
+	OneLess map[string]bool `json:"one_less,omitempty"`
+	Same    [][]string      `json:"same,omitempty"`
 }
 
 // DataSpec describes the data value passed to an operation; the value is built
@@ -122,6 +126,7 @@ type DataSpec struct {
 	Variant int    `json:"variant"`
 	Depth   int    `json:"depth,omitempty"` // recursion bound for data-bounded recursive components
 	Alt     int    `json:"alt,omitempty"`   // alternative Go types for the scalar values (map shape): the same names carry other types in other operations
+	Big     bool   `json:"big,omitempty"`   // maps with more than 8 entries (beyond Go's small-map layout), longer strings
 }
 
 // WriterSpec is the destination writer: FailAt < 0 never fails; otherwise the
